@@ -1998,7 +1998,10 @@ class HexBlock(Block):
         names += self.p.paramDefs.atLocation(ParamLocation.EDGES).names
         for name in names:
             original = self.p[name]
-            if isinstance(original, (list, np.ndarray)):
+            if isinstance(original, np.ndarray) and original.ndim == 0:
+                # a scalar held by an array-typed parameter: no rotation, like the scalar case below
+                pass
+            elif isinstance(original, (list, np.ndarray)):
                 if len(original) == 6:
                     # Rotate by making the -rotNum item be first
                     self.p[name] = iterables.pivot(original, -rotNum)
